@@ -16,3 +16,15 @@ Definition check_kernel (t : target) (guard : bool) (max_depth : nat) (heps : Qc
            (obs : list (list Q * Q)) : bool :=
   Qeq_bool (fold_right Qplus 0 (map snd obs)) 1 &&
   forallb (fun pq => Qeq_bool (kernel_prob t guard max_depth heps x z e (fst pq)) (snd pq)) obs.
+
+(* equality of concrete phase-space states (decides Leibniz equality: Qc is canonical) *)
+Definition cs_eqb (s t : cstate) : bool :=
+  qcl_eqb (ps_x s) (ps_x t) && qcl_eqb (ps_r s) (ps_r t) && qcl_eqb (ps_g s) (ps_g t).
+
+(* closed-orbit cells: the leapfrog orbit of the MODEL through (x, momentum z) closes after exactly N steps (the harness has
+   computed the orbit and N with its own rational arithmetic); these are the hypotheses of C08_concrete_closed_orbit_checked *)
+Definition check_cycle (t : target) (heps : Qc) (x z : list Q) (N : nat) : bool :=
+  let s0 := c_init t (qvec x) (qvec z) in
+  (0 <? N)%nat && (length x =? length z)%nat &&
+  cs_eqb (Nat.iter N (c_leap t heps true) s0) s0 &&
+  forallb (fun n => negb (cs_eqb (Nat.iter n (c_leap t heps true) s0) s0)) (seq 1 (N - 1)).
